@@ -468,3 +468,82 @@ func init() {
 			return out
 		}})
 }
+
+// LAZYSUB — a lazily reduced value is not subtracted from the modulus itself.
+//
+// MRedLazy / BRedLazy / …Lazy return values in [0, 2q-1]. `a + q - MRedLazy(…)` underflows whenever the lazy result
+// exceeds a + q; the library subtracts lazy results from 2q (`x + twoQ - MRedLazy(…)`) and fully reduced ones (MRed,
+// BRed, CRed) from q. Rule: in package ring, no subtraction has a call of a …Lazy reduction primitive as its right
+// operand while the term it is subtracted from (the right-most additive term of the left operand) is the modulus
+// itself (an identifier named modulus/q/qi/Q, or a `.Modulus` selector) rather than a multiple of it.
+func scanLazySub(c *core.Ctx) []ob {
+	var out []ob
+	n := 0
+	c.FuncDecls(func(pk *packages.Package, file *ast.File, fd *ast.FuncDecl) {
+		if fd.Body == nil || fileIsTestSupport(c.Program, fd.Pos()) || !(c.IsFixture || strings.HasPrefix(core.ShortPkg(pk.PkgPath), "ring")) {
+			return
+		}
+		info := pk.TypesInfo
+		fkey := core.FuncKey(pk, fd)
+		isModulus := func(e ast.Expr) bool {
+			switch x := unparen(e).(type) {
+			case *ast.Ident:
+				switch x.Name {
+				case "modulus", "q", "qi", "Q", "pi", "qj", "Modulus":
+					return true
+				}
+			case *ast.SelectorExpr:
+				return x.Sel.Name == "Modulus"
+			}
+			return false
+		}
+		var first ast.Node
+		ast.Inspect(fd.Body, func(x ast.Node) bool {
+			be, ok := x.(*ast.BinaryExpr)
+			if !ok || be.Op != token.SUB {
+				return true
+			}
+			call, ok := unparen(be.Y).(*ast.CallExpr)
+			if !ok {
+				return true
+			}
+			fn := calleeFunc(info, call)
+			if fn == nil || !strings.HasSuffix(fn.Name(), "Lazy") || fn.Pkg() == nil || !strings.Contains(fn.Pkg().Path(), "ring") && !c.IsFixture {
+				return true
+			}
+			n++
+			// right-most additive term of the left operand
+			l := unparen(be.X)
+			for {
+				if b, ok := l.(*ast.BinaryExpr); ok && b.Op == token.ADD {
+					l = unparen(b.Y)
+					continue
+				}
+				break
+			}
+			if isModulus(l) && first == nil {
+				first = be
+			}
+			return true
+		})
+		if first != nil {
+			out = append(out, violOb("LAZYSUB", "LAZYSUB:"+fkey, c.Rel(first.Pos()), fmt.Sprintf("%s subtracts a lazily reduced value (range [0, 2q-1]) from the modulus itself in %s: the subtraction wraps around 2^64 whenever the lazy result exceeds what it is subtracted from; lazy results are subtracted from 2q", fkey, exprString(first.(ast.Expr)))))
+		}
+	})
+	c.Stats["lazysub_sites"] = n
+	if !c.IsFixture {
+		out = append(out, okOb("LAZYSUB", "LAZYSUB:summary", "", fmt.Sprintf("%d subtractions of a lazily reduced value examined: each is taken from a multiple of the modulus", n), true))
+	}
+	return out
+}
+
+func init() {
+	core.Register(&core.Rule{Name: "LAZYSUB", Props: []string{"C01", "C02"},
+		Doc: "in package ring, no subtraction whose right operand is a call of a …Lazy reduction primitive (range [0, 2q-1]) is taken from the modulus itself (identifier modulus/q/qi/Q or .Modulus) instead of a multiple of it",
+		Run: func(c *core.Ctx) []ob {
+			out := scanLazySub(c)
+			out = append(out, control(c, "LAZYSUB", scanLazySub, "lvfixture.subLazy")...)
+			out = append(out, core.Floor("LAZYSUB", nil, "subtractions of lazily reduced values", c.Stats["lazysub_sites"], 30)...)
+			return out
+		}})
+}
